@@ -11,9 +11,10 @@ Operation form (JSON; the Lean model `PyGqlModel/AsyncExec.lean` reads the same)
            directly, inside `... on <Root> { }`, or through one fragment spread) — not part of the model.
   field  = {"key": str, "mode": "sync" | "deferred" | "nested" | "ready", "ty": ty, "out": fo}
            ("ready": the pool runs the task at submission, the executor receives an ALREADY FINISHED future)
-  ty     = {"t":"int"} | {"t":"nn","of":ty} | {"t":"list","of":ty} | {"t":"obj","fields":[{"key","mode","ty"} ...]}
+  ty     = {"t":"int"} (Int) | {"t":"int","scalar":"trim"} (custom scalar whose serialize() maps blank strings to None) | {"t":"nn","of":ty} | {"t":"list","of":ty} | {"t":"obj","fields":[{"key","mode","ty"} ...]}
   fo     = {"r":"rerr"} | {"r":"exc"} | {"r":"ok","v": rv}          (what the resolver of this field *instance* does)
-  rv     = null | int | "bad" | [rv ...] | {"<key>": fo ...}         (the resolved value, completed at `ty`)
+  rv     = null | int | "bad" | "tonull" (a NON-null resolver value that SERIALISES to null; only at trim leaves; the
+           model sees the completed value: null) | [rv ...] | {"<key>": fo ...}         (the resolved value, completed at `ty`)
 
 `ty` lives on the field *definition* (all instances under list items share it, like a schema);
 `fo` belongs to the field *instance* (response path).  `to_model(case)` merges both into the
@@ -108,7 +109,7 @@ class watchdog:
 def gen_ty(rng, depth, p):
     r = rng.random()
     if depth <= 0 or r < 0.45:
-        base = {"t": "int"}
+        base = {"t": "int", "scalar": "trim"} if rng.random() < p.get("p_trim", 0.3) else {"t": "int"}
     elif r < 0.8:
         n = rng.randint(1, p["max_sub"])
         base = {"t": "obj", "fields": [gen_fdef(rng, depth - 1, p, "abcdefgh"[i]) for i in range(n)]}
@@ -140,6 +141,8 @@ def gen_rv(rng, ty, p):
     if ty["t"] == "int":
         if rng.random() < p["p_bad"]:
             return "bad"
+        if ty.get("scalar") == "trim" and rng.random() < p.get("p_tonull", 0.25):
+            return "tonull"
         return rng.randint(0, 9)
     if ty["t"] == "list":
         if rng.random() < p["p_bad"]:
@@ -183,7 +186,7 @@ def to_model(case):
     def comp(ty, rv):
         if ty["t"] == "nn":
             return {"t": "nonNull", "c": comp(ty["of"], rv)}
-        if rv is None:
+        if rv is None or rv == "tonull":
             return {"t": "null"}
         if rv == "bad":
             return {"t": "bad"}
@@ -230,11 +233,16 @@ def features(case):
             fs.add("nonNull")
             if rv is None:
                 fs.add("nonNull-null")
+            if rv == "tonull":
+                fs.add("nonNull-tonull")
             return w_rv(ty["of"], rv, under)
         if rv is None:
             return
         if rv == "bad":
             fs.add("bad")
+            return
+        if rv == "tonull":
+            fs.add("tonull")
             return
         if ty["t"] == "list":
             fs.add("list")
@@ -295,13 +303,34 @@ def r_default(root, ctx, info, **kw):
     return ctx.resolve(info, False)
 
 
+_TRIM = None
+
+
+def trim_scalar():
+    """A custom scalar whose serialize() turns some NON-null values (blank strings) into None."""
+    global _TRIM
+    if _TRIM is None:
+        from py_gql.exc import ScalarSerializationError
+        from py_gql.schema import ScalarType
+
+        def serialize(v):
+            if isinstance(v, str) and not v.strip():
+                return None
+            if isinstance(v, int) and not isinstance(v, bool):
+                return v
+            raise ScalarSerializationError("Trimmed cannot represent %r" % (v,))
+
+        _TRIM = ScalarType("Trimmed", serialize=serialize, parse=lambda v: v)
+    return _TRIM
+
+
 def build_schema(case, all_explicit=False):
     from py_gql.schema import Field, Int, ListType, NonNullType, ObjectType, Schema
     counter = itertools.count()
 
     def mk_ty(ty):
         if ty["t"] == "int":
-            return Int
+            return trim_scalar() if ty.get("scalar") == "trim" else Int
         if ty["t"] == "nn":
             return NonNullType(mk_ty(ty["of"]))
         if ty["t"] == "list":
@@ -371,6 +400,8 @@ def py_value(ty, rv):
         return None
     if rv == "bad":
         return "not-an-int" if ty["t"] == "int" else 7
+    if rv == "tonull":
+        return "   "
     if ty["t"] == "int":
         return rv
     if ty["t"] == "list":
@@ -842,7 +873,7 @@ def shrink(case, still_fails, budget=150, seconds=6.0):
             yield dict(f, mode="sync")
         if f["mode"] == "nested":
             yield dict(f, mode="deferred")
-        if f["ty"]["t"] != "int":
+        if f["ty"] != {"t": "int"}:
             yield dict(f, ty={"t": "int"}, out={"r": "ok", "v": 1} if f["out"]["r"] == "ok" else f["out"])
         if f["out"]["r"] == "ok":
             for ty2, v2 in simplify_tv(f["ty"], f["out"]["v"]):
@@ -903,6 +934,8 @@ def well_typed(case):
             return True
         if rv == "bad":
             return ty["t"] in ("int", "list")
+        if rv == "tonull":
+            return ty["t"] == "int" and ty.get("scalar") == "trim"
         if ty["t"] == "int":
             return isinstance(rv, int)
         if ty["t"] == "list":
